@@ -277,6 +277,9 @@ func runScenario(r *ev.Run, id caseID) {
 		maxMsg = []uint64{700, 1024, 2048}[g.Intn(3)]
 	}
 	inMem := []uint64{0, 1 << 20, 6 << 20, 1 << 20}[g.Intn(4)] // must exceed the worker's 256 KiB proposals
+	if (id.Scenario == "snapshot" || id.Scenario == "writes-during-recovery") && g.Intn(2) == 0 {
+		inMem = 1 << 20
+	}
 	logCache := []int{0, 0, 16, 1024}[g.Intn(4)]
 	if id.Scenario == "second-consumer" {
 		// two consumers of one leader node only interact through its log cache
@@ -299,7 +302,7 @@ func runScenario(r *ev.Run, id caseID) {
 	defer l.Close()
 	le := l.Nodes[0].Engine
 	tables := []string{"t1"}
-	if id.Scenario == "tables" || g.Intn(3) == 0 {
+	if id.Scenario == "tables" || id.Scenario == "snapshot" || g.Intn(3) == 0 {
 		tables = append(tables, "t2")
 	}
 	for _, t := range tables {
@@ -352,6 +355,35 @@ func runScenario(r *ev.Run, id caseID) {
 		if lg.failed.Load() {
 			r.Inconclusive("leader write failed: " + fmt.Sprint(lg.why.Load()))
 			return
+		}
+		// shapes of the snapshot stream: the greatest key of t1 holds a value larger than the
+		// follower's restore batch threshold (MaxInMemLogSize/2), so that a batch closes exactly on
+		// the last pair; in the snapshot scenario t2 is empty when the follower recovers it
+		// (nothing but the closing leader-index marker is streamed)
+		{
+			ctx, cancel := context.WithTimeout(context.Background(), 10*time.Second)
+			if inMem > 0 && inMem <= 4<<20 {
+				val := append([]byte("last-pair|"), make([]byte, inMem/2+(64<<10))...)
+				if resp, err := le.Put(ctx, &pb.PutRequest{Table: []byte("t1"), Key: []byte("zzzz-greatest-key"), Value: val}); err == nil {
+					cmd := &pb.Command{Table: []byte("t1"), Type: pb.Command_PUT, Kv: &pb.KeyValue{Key: []byte("zzzz-greatest-key"), Value: val}}
+					lg.add("t1", write{rev: resp.Header.Revision, cmd: cmd, desc: fmt.Sprintf("%d:%s", resp.Header.Revision, gen.Describe(cmd))})
+					r.Count("snapshot_streams_with_batch_closing_on_the_last_pair", 1)
+				} else {
+					lg.failed.Store(true)
+					lg.why.Store(err.Error())
+				}
+			}
+			if id.Scenario == "snapshot" {
+				if resp, err := le.Delete(ctx, &pb.DeleteRangeRequest{Table: []byte("t2"), Key: []byte{0}, RangeEnd: []byte{0}}); err == nil {
+					cmd := &pb.Command{Table: []byte("t2"), Type: pb.Command_DELETE, Kv: &pb.KeyValue{Key: []byte{0}}, RangeEnd: []byte{0}}
+					lg.add("t2", write{rev: resp.Header.Revision, cmd: cmd, desc: fmt.Sprintf("%d:%s", resp.Header.Revision, gen.Describe(cmd))})
+					r.Count("snapshot_streams_of_an_empty_table", 1)
+				} else {
+					lg.failed.Store(true)
+					lg.why.Store(err.Error())
+				}
+			}
+			cancel()
 		}
 		time.Sleep(300 * time.Millisecond) // let the leader snapshot + compact
 	}
@@ -496,7 +528,20 @@ func runScenario(r *ev.Run, id caseID) {
 		injStop.Store(true)
 		<-injWait
 	case "snapshot":
-		// nothing more: the follower must recover from a snapshot and then tail
+		// nothing more: the follower must recover from a snapshot and then tail (the leader goes on
+		// writing once the follower has recovered every table, at the latest after 3 s)
+		for i := 0; i < 150; i++ {
+			n := 0
+			for _, t := range tables {
+				if li, err := leaderIndex(fe(), t); err == nil && li > 0 {
+					n++
+				}
+			}
+			if n == len(tables) {
+				break
+			}
+			time.Sleep(20 * time.Millisecond)
+		}
 		startWriters(1, 25)
 		wg.Wait()
 	case "writes-during-recovery":
